@@ -105,6 +105,7 @@ def decimal (n : Nat) : Str := decimalFuel (n + 1) n
 /-- exception classes that `json.loads(msg.decode('utf-8'))` is known to raise, plus a catch-all -/
 inductive Exc where
   | unicodeDecodeError | jsonDecodeError | valueError | recursionError | typeError | other
+  | osError        -- raised by `sendto` (a sender that can not be answered, e.g. source port 0)
 deriving DecidableEq, Repr
 
 structure Tables where
@@ -118,6 +119,7 @@ structure Tables where
   seg3 : Str                   -- ,"description":
   seg4 : Str                   -- }
   catches : Exc → Bool         -- the `except` clause around the decoding
+  catchesSend : Bool           -- the answer sends are inside `try … except OSError` (going on with the loop)
 
 /-! ## `_getMessage` -/
 
@@ -198,6 +200,7 @@ deriving DecidableEq, Repr
 inductive Outcome (α : Type) where
   | answered (sends : List (Send α))
   | ignored
+  | unanswerable            -- a request whose sender can not be answered: `sendto` raised, the loop goes on
   | died (e : Exc)          -- an exception leaves `run`: the thread ends
 deriving DecidableEq, Repr
 
@@ -218,16 +221,22 @@ def isDiscover : JTop → Bool
 def sendAll (t : Tables) (L : Listener) (dest : Dest α) : List (Send α) :=
   L.ports.map (fun p => { payload := message t L.id L.fw L.desc p, dest := dest })
 
+/-- the answer to a request from `addr`; `sendOk addr = false`: `sendto(…, addr)` raises OSError (a datagram
+with source port 0 cannot be answered).  All messages of a batch go to the same address, so the first send fails. -/
+def answer (t : Tables) (L : Listener) (sendOk : α → Bool) (addr : α) : Outcome α :=
+  if sendOk addr then .answered (sendAll t L (.peer addr))
+  else if t.catchesSend then .unanswerable else .died .osError
+
 /-- the `try … except` around `json.loads(msg.decode('utf-8'))` and the filter after it -/
-def afterDecode (t : Tables) (L : Listener) (addr : α) : Except Exc JTop → Outcome α
+def afterDecode (t : Tables) (L : Listener) (sendOk : α → Bool) (addr : α) : Except Exc JTop → Outcome α
   | .error e => if t.catches e then .ignored else .died e
-  | .ok v => if isDiscover v then .answered (sendAll t L (.peer addr)) else .ignored
+  | .ok v => if isDiscover v then answer t L sendOk addr else .ignored
 
 /-- one pass of the loop body for a datagram `dg` from `addr`; `decode` stands for
 `json.loads(· .decode('utf-8'))` -/
-def handleDatagram (t : Tables) (L : Listener) (decode : Bytes → Except Exc JTop) (dg : Bytes) (addr : α) :
-    Outcome α :=
-  afterDecode t L addr (decode (dg.take t.recvBuf))
+def handleDatagram (t : Tables) (L : Listener) (decode : Bytes → Except Exc JTop) (sendOk : α → Bool) (dg : Bytes)
+    (addr : α) : Outcome α :=
+  afterDecode t L sendOk addr (decode (dg.take t.recvBuf))
 
 /-- what `recvfrom` does next -/
 inductive Event (α : Type) where
@@ -235,13 +244,14 @@ inductive Event (α : Type) where
   | closed                   -- `socket.error` (the socket was shut down)
 
 /-- the `while` loop: one outcome per datagram, until the socket is closed or the thread dies -/
-def loop (t : Tables) (L : Listener) (decode : Bytes → Except Exc JTop) : List (Event α) → List (Outcome α)
+def loop (t : Tables) (L : Listener) (decode : Bytes → Except Exc JTop) (sendOk : α → Bool) :
+    List (Event α) → List (Outcome α)
   | [] => []
   | .closed :: _ => []
   | .datagram dg addr :: rest =>
-    match handleDatagram t L decode dg addr with
+    match handleDatagram t L decode sendOk dg addr with
     | .died e => [.died e]
-    | o => o :: loop t L decode rest
+    | o => o :: loop t L decode sendOk rest
 
 /-- the start-up announcement -/
 def announce (t : Tables) (L : Listener) (startupBroadcast : Bool) : List (Send α) :=
@@ -249,7 +259,7 @@ def announce (t : Tables) (L : Listener) (startupBroadcast : Bool) : List (Send 
 
 /-- `run()`: announcement, then the outcomes of the loop -/
 def run (t : Tables) (L : Listener) (startupBroadcast : Bool) (decode : Bytes → Except Exc JTop)
-    (events : List (Event α)) : List (Send α) × List (Outcome α) :=
-  (announce t L startupBroadcast, if L.enabled then loop t L decode events else [])
+    (sendOk : α → Bool) (events : List (Event α)) : List (Send α) × List (Outcome α) :=
+  (announce t L startupBroadcast, if L.enabled then loop t L decode sendOk events else [])
 
 end Frappy.Discovery
